@@ -64,6 +64,12 @@ func init() {
 		c02CloseOnce(c)
 		c02Deadline(c)
 		c02TimeUnits(c)
+		// "no sequence hangs the server": the request/reply plumbing always answers and the
+		// write-queue error callback cannot deadlock against the session goroutine
+		onErrorCancelRule(c, "C02/ONERROR-CANCEL")
+		replyPairingRule(c, "C02/REPLY-PAIRING", 5, []string{"Server.runInner", "ServerSession.runInner", "ServerConn.runInner"}, map[string]string{
+			"Server).runInner/chHandleHTTPChannel": "no reply when the connection is already gone: the requester is that connection's reader goroutine, which has exited before the connection is removed from s.conns",
+		})
 	}
 }
 
